@@ -159,6 +159,11 @@ func (s *DHSession) Parameter(rand io.Reader, _ *rsa.PublicKey) ([]byte, error) 
 // SetParameter sets the received parameter from the client. This method is only called by a
 // server.
 func (s *DHSession) SetParameter(xB []byte, _ *rsa.PrivateKey) error {
+	// The private exponent is cleared once the session key has been computed,
+	// so a second parameter (e.g. a replayed message) must not get this far
+	if s.a == nil {
+		return fmt.Errorf("key exchange has no private exponent: parameter was not generated or the exchange already completed")
+	}
 	s.xB = new(big.Int).SetBytes(xB)
 
 	// Compute session key
